@@ -41,6 +41,23 @@ theorem single_cixp {P : Nat → Prop} {v : FatVolume} {s s' : FS} {b : Nat} {p 
     · exact h0
     · exact h1
 
+/-- The clusters the record of a stage of a cut owns are clusters of the record before. -/
+theorem trunc_flatten_sub {A B : List (List Nat)} {pre tail : List Nat} {x j c : Nat}
+    (h : c ∈ (A ++ ([pre ++ [x]] ++ remOf (tail.drop j)) ++ B).flatten) : c ∈ (A ++ [pre ++ x :: tail] ++ B).flatten := by
+  simp only [List.flatten_append, List.flatten_cons, List.flatten_nil, remOf_flatten, List.mem_append, List.append_nil,
+    List.mem_cons, List.not_mem_nil, or_false] at h ⊢
+  rcases h with (h | (h | h) | h) | h
+  · exact .inl (.inl h)
+  · exact .inl (.inr (.inl h))
+  · exact .inl (.inr (.inr (.inl h)))
+  · exact .inl (.inr (.inr (.inr (List.mem_of_mem_drop h))))
+  · exact .inr h
+
+/-- No cluster comes into use: the clusters in use on `d` are among those of the record `R0` of `d0`. -/
+theorem used_sub {v : FatVolume} {d0 d : Disk} {R0 R : List (List Nat)} (hO0 : Owns v d0 R0) (hO : Owns v d R)
+    (hsub : ∀ c, c ∈ R.flatten → c ∈ R0.flatten) : ∀ c, isUsed v d c → isUsed v d0 c :=
+  fun c hc => (hO0.2.2 c).2 (hsub c ((hO.2.2 c).1 hc))
+
 section Pieces
 variable {files : List FileInfo} {gh : Ghost} {X : List (List Nat)} {P : Nat → Prop}
 
@@ -66,31 +83,29 @@ theorem alloc_cixp {s s' : FS} (hM : MedX s.vol s.dev.disk files gh X) (hR : Raw
     rcases dirSlot_not_fat hM hh hs with e | e <;> rw [e] <;> decide
   · exact cixp_view hfin hC
 
-/-- Cutting a chain of the record that is no directory chain. -/
-theorem truncate_cixp {s : FS} (hM : MedX s.vol s.dev.disk files gh X) (hR : RawOKX s.vol.fatType s.dev.disk files)
-    (hD : DirClustersInit s.vol P s.dev.disk gh)
-    (hn : NoFault s) (hc : Coherent s) {A B : List (List Nat)} {pre tail : List Nat} {x : Nat}
+/-- A crash point of a cut: crash-consistent, and no cluster came into use. -/
+theorem trunc_point {v : FatVolume} {d0 d : Disk} (hM : MedX v d0 files gh X) (hR : RawOKX v.fatType d0 files)
+    (hD : DirClustersInit v P d0 gh) {A B : List (List Nat)} {pre tail : List Nat} {x : Nat}
     (hG : gh.G ++ X = A ++ [pre ++ x :: tail] ++ B)
-    (hnd : ∀ h, h ∈ dirIds gh.dirs → ¬ isFixedRoot s.vol h → chainOf gh.G (dirHead s.vol h) ≠ pre ++ x :: tail) :
-    ∃ s', truncateClusterChain x s = (.ok (), s') ∧ CrashAll (CIXP P s.vol) s s' := by
-  have ho : Owns s.vol s.dev.disk (A ++ [pre ++ x :: tail] ++ B) := hG ▸ hM.owns
-  have hch : Chain s.vol s.dev.disk ((pre ++ x :: tail).headD 0) (pre ++ x :: tail) :=
-    ho.1 _ (List.mem_append_left _ (List.mem_append_right _ (List.mem_singleton.2 rfl)))
-  obtain ⟨s2, ht, hcr⟩ := CrashFat.truncate_crash s _ x pre tail hn hc hM.blocksOK hM.geom hch
-  refine ⟨s2, ht, hcr.mono fun d hd => ?_⟩
-  obtain ⟨htc, _⟩ := hd
-  have hmemG : ∀ h, h ∈ dirIds gh.dirs → ¬ isFixedRoot s.vol h → chainOf gh.G (dirHead s.vol h) ∈ gh.G ++ X :=
+    (hnd : ∀ h, h ∈ dirIds gh.dirs → ¬ isFixedRoot v h → chainOf gh.G (dirHead v h) ≠ pre ++ x :: tail)
+    (ho : Owns v d0 (A ++ [pre ++ x :: tail] ++ B)) (htc : CrashFat.TruncCrash v d0 x tail d) :
+    CIXP P v d ∧ ∀ c, isUsed v d c → isUsed v d0 c := by
+  have hmemG : ∀ h, h ∈ dirIds gh.dirs → ¬ isFixedRoot v h → chainOf gh.G (dirHead v h) ∈ gh.G ++ X :=
     fun h hh hf => List.mem_append_left _ (dirChain_spec hM hh hf).1
-  have hblkOf : (∀ i, regionOf s.vol i ≠ .fat → d.get i = s.dev.disk.get i) →
-      ∀ h, h ∈ dirIds gh.dirs → ∀ sl, sl ∈ dirSlots s.vol s.dev.disk gh.G h → d.get sl.1 = s.dev.disk.get sl.1 := by
+  have hblkOf : (∀ i, regionOf v i ≠ .fat → d.get i = d0.get i) →
+      ∀ h, h ∈ dirIds gh.dirs → ∀ sl, sl ∈ dirSlots v d0 gh.G h → d.get sl.1 = d0.get sl.1 := by
     intro hblocks h hh sl hs
     refine hblocks sl.1 ?_
     rcases dirSlot_not_fat hM hh hs with e | e <;> rw [e] <;> decide
   rcases htc with hv | ⟨j, _, hst⟩
-  · exact cixp_of_record hM hR hD (R := A ++ [pre ++ x :: tail] ++ B) (owns_view ho hv)
-      (fun y hy => hG ▸ rawRefs_heads_all hM hR.raw hy) (fun h hh hf => hG ▸ hmemG h hh hf) (hblkOf hv.nonFat)
-  · refine cixp_of_record hM hR hD (R := A ++ ([pre ++ [x]] ++ remOf (tail.drop j)) ++ B) (owns_trunc_stage ho hst)
-      (fun y hy => ?_) (fun h hh hf => ?_) (hblkOf fun i hi => hst.within.nonFat i hi id)
+  · have hO := owns_view ho hv
+    exact ⟨cixp_of_record hM hR hD (R := A ++ [pre ++ x :: tail] ++ B) hO
+      (fun y hy => hG ▸ rawRefs_heads_all hM hR.raw hy) (fun h hh hf => hG ▸ hmemG h hh hf) (hblkOf hv.nonFat),
+      used_sub ho hO fun _ h => h⟩
+  · have hO := owns_trunc_stage ho hst
+    refine ⟨cixp_of_record hM hR hD (R := A ++ ([pre ++ [x]] ++ remOf (tail.drop j)) ++ B) hO
+      (fun y hy => ?_) (fun h hh hf => ?_) (hblkOf fun i hi => hst.within.nonFat i hi id),
+      used_sub ho hO fun _ h => trunc_flatten_sub h⟩
     · have := rawRefs_heads_all hM hR.raw hy
       rw [hG] at this
       have hh : (pre ++ [x]).headD 0 = (pre ++ x :: tail).headD 0 := by cases pre <;> rfl
@@ -110,25 +125,37 @@ theorem truncate_cixp {s : FS} (hM : MedX s.vol s.dev.disk files gh X) (hR : Raw
         · exact absurd (List.mem_singleton.1 hm) (hnd h hh hf)
       · exact List.mem_append_right _ hm
 
-/-- Releasing a chain of the record that the raw medium does not reference. -/
-theorem free_cixp {s : FS} (hM : MedX s.vol s.dev.disk files gh X) (hR : RawOKX s.vol.fatType s.dev.disk files)
+
+/-- Cutting a chain of the record that is no directory chain. -/
+theorem truncate_cixp {s : FS} (hM : MedX s.vol s.dev.disk files gh X) (hR : RawOKX s.vol.fatType s.dev.disk files)
     (hD : DirClustersInit s.vol P s.dev.disk gh)
-    (hn : NoFault s) (hc : Coherent s) {A B : List (List Nat)} {tail : List Nat} {r : Nat}
-    (hG : gh.G ++ X = A ++ [r :: tail] ++ B) (hnr : r ∉ rawRefs s.vol s.dev.disk gh) :
-    ∃ s', freeClusterChain r s = (.ok (), s') ∧ CrashAll (CIXP P s.vol) s s' := by
-  have ho : Owns s.vol s.dev.disk (A ++ [r :: tail] ++ B) := hG ▸ hM.owns
-  have hch : Chain s.vol s.dev.disk r (r :: tail) :=
+    (hn : NoFault s) (hc : Coherent s) {A B : List (List Nat)} {pre tail : List Nat} {x : Nat}
+    (hG : gh.G ++ X = A ++ [pre ++ x :: tail] ++ B)
+    (hnd : ∀ h, h ∈ dirIds gh.dirs → ¬ isFixedRoot s.vol h → chainOf gh.G (dirHead s.vol h) ≠ pre ++ x :: tail) :
+    ∃ s', truncateClusterChain x s = (.ok (), s') ∧ CrashAll (CIXP P s.vol) s s' ∧
+      ∀ c, isUsed s.vol s'.dev.disk c → isUsed s.vol s.dev.disk c := by
+  have ho : Owns s.vol s.dev.disk (A ++ [pre ++ x :: tail] ++ B) := hG ▸ hM.owns
+  have hch : Chain s.vol s.dev.disk ((pre ++ x :: tail).headD 0) (pre ++ x :: tail) :=
     ho.1 _ (List.mem_append_left _ (List.mem_append_right _ (List.mem_singleton.2 rfl)))
-  obtain ⟨s2, ht, hcr⟩ := CrashFat.free_crash s r tail hn hc hM.blocksOK hM.geom hch
-  refine ⟨s2, ht, hcr.mono fun d hd => ?_⟩
-  obtain ⟨htc, _⟩ := hd
-  have hblkOf : (∀ i, regionOf s.vol i ≠ .fat → d.get i = s.dev.disk.get i) →
-      ∀ h, h ∈ dirIds gh.dirs → ∀ sl, sl ∈ dirSlots s.vol s.dev.disk gh.G h → d.get sl.1 = s.dev.disk.get sl.1 := by
+  obtain ⟨s2, ht, hcr⟩ := CrashFat.truncate_crash s _ x pre tail hn hc hM.blocksOK hM.geom hch
+  have key : CrashAll (fun d => CIXP P s.vol d ∧ ∀ c, isUsed s.vol d c → isUsed s.vol s.dev.disk c) s s2 := by
+    refine hcr.mono fun d hd => ?_
+    exact trunc_point hM hR hD hG hnd ho hd.1
+  exact ⟨s2, ht, key.mono fun _ h => h.1, key.final.2⟩
+
+/-- A crash point of a release: crash-consistent, and no cluster came into use. -/
+theorem free_point {v : FatVolume} {d0 d : Disk} (hM : MedX v d0 files gh X) (hR : RawOKX v.fatType d0 files)
+    (hD : DirClustersInit v P d0 gh) {A B : List (List Nat)} {tail : List Nat} {r : Nat}
+    (hG : gh.G ++ X = A ++ [r :: tail] ++ B) (hnr : r ∉ rawRefs v d0 gh)
+    (ho : Owns v d0 (A ++ [r :: tail] ++ B)) (htc : CrashFat.FreeCrash v d0 r tail d) :
+    CIXP P v d ∧ ∀ c, isUsed v d c → isUsed v d0 c := by
+  have hblkOf : (∀ i, regionOf v i ≠ .fat → d.get i = d0.get i) →
+      ∀ h, h ∈ dirIds gh.dirs → ∀ sl, sl ∈ dirSlots v d0 gh.G h → d.get sl.1 = d0.get sl.1 := by
     intro hblocks h hh sl hs
     refine hblocks sl.1 ?_
     rcases dirSlot_not_fat hM hh hs with e | e <;> rw [e] <;> decide
   -- the references and the directory chains lie outside the released chain
-  have hrefsAB : ∀ (M : List (List Nat)) y, y ∈ rawRefs s.vol s.dev.disk gh → y ∈ heads (A ++ M ++ B) := by
+  have hrefsAB : ∀ (M : List (List Nat)) y, y ∈ rawRefs v d0 gh → y ∈ heads (A ++ M ++ B) := by
     intro M y hy
     have := rawRefs_heads_all hM hR.raw hy
     rw [hG] at this
@@ -138,11 +165,11 @@ theorem free_cixp {s : FS} (hM : MedX s.vol s.dev.disk files gh X) (hR : RawOKX 
     · exact .inl (.inl h1)
     · exact absurd (show r ∈ _ from (show y = r from h1) ▸ hy) hnr
     · exact .inr h1
-  have hdirsAB : ∀ (M : List (List Nat)) h, h ∈ dirIds gh.dirs → ¬ isFixedRoot s.vol h →
-      chainOf gh.G (dirHead s.vol h) ∈ A ++ M ++ B := by
+  have hdirsAB : ∀ (M : List (List Nat)) h, h ∈ dirIds gh.dirs → ¬ isFixedRoot v h →
+      chainOf gh.G (dirHead v h) ∈ A ++ M ++ B := by
     intro M h hh hf
     obtain ⟨hm, hhd⟩ := dirChain_spec hM hh hf
-    have hm' : chainOf gh.G (dirHead s.vol h) ∈ gh.G ++ X := List.mem_append_left _ hm
+    have hm' : chainOf gh.G (dirHead v h) ∈ gh.G ++ X := List.mem_append_left _ hm
     rw [hG] at hm'
     rcases List.mem_append.1 hm' with hm' | hm'
     · rcases List.mem_append.1 hm' with hm' | hm'
@@ -150,16 +177,39 @@ theorem free_cixp {s : FS} (hM : MedX s.vol s.dev.disk files gh X) (hR : RawOKX 
       · exfalso
         have e := List.mem_singleton.1 hm'
         rw [e] at hhd
-        have : dirHead s.vol h = r := by simpa using hhd.symm
+        have : dirHead v h = r := by simpa using hhd.symm
         exact hnr (this ▸ dirHead_rawRefs hh hf)
     · exact List.mem_append_right _ hm'
   rcases htc with (hv | ⟨j, _, hst⟩) | hst
-  · exact cixp_of_record hM hR hD (R := A ++ [r :: tail] ++ B) (owns_view ho hv) (hrefsAB _) (hdirsAB _) (hblkOf hv.nonFat)
-  · have ho' : Owns s.vol s.dev.disk (A ++ [[] ++ r :: tail] ++ B) := ho
-    exact cixp_of_record hM hR hD (R := A ++ ([[] ++ [r]] ++ remOf (tail.drop j)) ++ B) (owns_trunc_stage ho' hst)
-      (hrefsAB _) (hdirsAB _) (hblkOf fun i hi => hst.within.nonFat i hi id)
-  · exact cixp_of_record hM hR hD (R := A ++ [] ++ B) (owns_free_stage ho hst) (hrefsAB _) (hdirsAB _)
-      (hblkOf fun i hi => hst.within.nonFat i hi id)
+  · have hO := owns_view ho hv
+    exact ⟨cixp_of_record hM hR hD (R := A ++ [r :: tail] ++ B) hO (hrefsAB _) (hdirsAB _) (hblkOf hv.nonFat),
+      used_sub ho hO fun _ h => h⟩
+  · have ho' : Owns v d0 (A ++ [[] ++ r :: tail] ++ B) := ho
+    have hO := owns_trunc_stage ho' hst
+    exact ⟨cixp_of_record hM hR hD (R := A ++ ([[] ++ [r]] ++ remOf (tail.drop j)) ++ B) hO
+      (hrefsAB _) (hdirsAB _) (hblkOf fun i hi => hst.within.nonFat i hi id), used_sub ho' hO fun _ h => trunc_flatten_sub h⟩
+  · have hO := owns_free_stage ho hst
+    refine ⟨cixp_of_record hM hR hD (R := A ++ [] ++ B) hO (hrefsAB _) (hdirsAB _)
+      (hblkOf fun i hi => hst.within.nonFat i hi id), used_sub ho hO fun c h => ?_⟩
+    simp only [List.flatten_append, List.flatten_nil, List.flatten_cons, List.mem_append, List.append_nil] at h ⊢
+    rcases h with h | h
+    · exact .inl (.inl h)
+    · exact .inr h
+
+/-- Releasing a chain of the record that the raw medium does not reference. -/
+theorem free_cixp {s : FS} (hM : MedX s.vol s.dev.disk files gh X) (hR : RawOKX s.vol.fatType s.dev.disk files)
+    (hD : DirClustersInit s.vol P s.dev.disk gh)
+    (hn : NoFault s) (hc : Coherent s) {A B : List (List Nat)} {tail : List Nat} {r : Nat}
+    (hG : gh.G ++ X = A ++ [r :: tail] ++ B) (hnr : r ∉ rawRefs s.vol s.dev.disk gh) :
+    ∃ s', freeClusterChain r s = (.ok (), s') ∧ CrashAll (CIXP P s.vol) s s' ∧
+      ∀ c, isUsed s.vol s'.dev.disk c → isUsed s.vol s.dev.disk c := by
+  have ho : Owns s.vol s.dev.disk (A ++ [r :: tail] ++ B) := hG ▸ hM.owns
+  have hch : Chain s.vol s.dev.disk r (r :: tail) :=
+    ho.1 _ (List.mem_append_left _ (List.mem_append_right _ (List.mem_singleton.2 rfl)))
+  obtain ⟨s2, ht, hcr⟩ := CrashFat.free_crash s r tail hn hc hM.blocksOK hM.geom hch
+  have key : CrashAll (fun d => CIXP P s.vol d ∧ ∀ c, isUsed s.vol d c → isUsed s.vol s.dev.disk c) s s2 :=
+    hcr.mono fun d hd => free_point hM hR hD hG hnr ho hd.1
+  exact ⟨s2, ht, key.mono fun _ h => h.1, key.final.2⟩
 
 /-- Blanking blocks of a cluster outside the chains of `G`. -/
 theorem zeroBlocks_cixp {s : FS} (hM : MedX s.vol s.dev.disk files gh X) (hR : RawOKX s.vol.fatType s.dev.disk files)
